@@ -153,6 +153,30 @@ func cmdCheck(args []string) {
 			}
 			rep.Obls = keep
 		}
+		{
+			// a clause label ending in ".only-C04-C10" belongs to the listed properties only (the
+			// function's other properties do not count or report that obligation)
+			var keep []*Obligation
+			for _, o := range rep.Obls {
+				if j := strings.Index(o.Name, ".only-"); j >= 0 {
+					tail := o.Name[j+len(".only-"):]
+					if k := strings.IndexAny(tail, "/ "); k >= 0 {
+						tail = tail[:k]
+					}
+					mine := false
+					for _, pr := range strings.Split(tail, "-") {
+						if pr == prop {
+							mine = true
+						}
+					}
+					if !mine {
+						continue
+					}
+				}
+				keep = append(keep, o)
+			}
+			rep.Obls = keep
+		}
 		res.Reports = append(res.Reports, rep)
 		res.Obls = append(res.Obls, rep.Obls...)
 		if rep.Err != "" {
@@ -204,9 +228,9 @@ func cmdCheck(args []string) {
 			o.Status, o.Solver = "", ""
 		}
 		cfg2 := *cfg
-		cfg2.Jobs = 4
-		cfg2.TimeoutMS = 60000
-		cfg2.StageMS = 15000
+		cfg2.Jobs = 6
+		cfg2.TimeoutMS = 40000
+		cfg2.StageMS = 10000
 		cfg2.Seed = cfg.Seed + 3
 		SolveAll(retry, &cfg2)
 		phase("retry done")
